@@ -41,15 +41,22 @@ def font_class(module: str):
 def _draw(glyph, gspec):
     pen = glyph.getPointPen()
     opens = gspec.get("open") or []
+    ident = bool(gspec.get("identifiers"))  # contour / point identifiers, unique within the glyph
     for ci, contour in enumerate(gspec.get("contours", ())):
-        pen.beginPath()
+        if ident:
+            pen.beginPath(identifier="c%d" % ci)
+        else:
+            pen.beginPath()
         is_open = ci < len(opens) and opens[ci]
         for pi, pt in enumerate(contour):
             x, y, typ = pt[0], pt[1], pt[2]
             smooth = bool(pt[3]) if len(pt) > 3 else False
             if is_open and pi == 0:
                 typ = "move"
-            pen.addPoint((x, y), segmentType=typ, smooth=smooth)
+            if ident:
+                pen.addPoint((x, y), segmentType=typ, smooth=smooth, identifier="p%d_%d" % (ci, pi))
+            else:
+                pen.addPoint((x, y), segmentType=typ, smooth=smooth)
         pen.endPath()
     for base, t in gspec.get("components", ()):
         pen.addComponent(base, tuple(t))
